@@ -539,6 +539,70 @@ fn main() {
         return;
     }
 
+    if mode == "script" {
+        // The Rust twin of ffi_driver's `script` mode (see there for the command language).
+        use std::os::unix::fs::FileExt;
+        let script = std::fs::read_to_string(arg_str(&args, "script", "")).expect("--script");
+        let shm = arg_str(&args, "shm", "");
+        let file = std::fs::OpenOptions::new().read(true).write(true).create(true).truncate(true).open(&shm).expect("shm file");
+        clock::fixed::install();
+        let mut client: Option<ClockBoundClient> = None;
+        let out = std::io::stdout();
+        let mut out = out.lock();
+        for line in script.lines() {
+            let t: Vec<&str> = line.split_whitespace().collect();
+            if t.is_empty() {
+                continue;
+            }
+            let num = |k: usize| t[k].parse::<i64>().unwrap();
+            match t[0] {
+                "W" => {
+                    let mut b = [0u8; 72];
+                    b[0..4].copy_from_slice(&0x414D5A4Eu32.to_ne_bytes());
+                    b[4..8].copy_from_slice(&0x43420200u32.to_ne_bytes());
+                    b[8..12].copy_from_slice(&72u32.to_ne_bytes());
+                    b[12..14].copy_from_slice(&1u16.to_ne_bytes());
+                    b[14..16].copy_from_slice(&(num(1) as u16).to_ne_bytes());
+                    for k in 0..5 {
+                        b[16 + 8 * k..24 + 8 * k].copy_from_slice(&num(2 + k).to_ne_bytes());
+                    }
+                    b[56..60].copy_from_slice(&(num(7) as u32).to_ne_bytes());
+                    b[64..68].copy_from_slice(&(num(8) as i32).to_ne_bytes());
+                    file.write_at(&b, 0).unwrap();
+                }
+                "G" => {
+                    file.write_at(&(num(1) as u16).to_ne_bytes(), 14).unwrap();
+                }
+                "V" => {
+                    file.write_at(&(num(1) as u16).to_ne_bytes(), 12).unwrap();
+                }
+                "O" => {
+                    client = None;
+                    match ClockBoundClient::new_with_path(&shm) {
+                        Ok(c) => {
+                            client = Some(c);
+                            writeln!(out, "OPEN OK").unwrap();
+                        }
+                        Err(e) => writeln!(out, "OPEN ERR {} {} {}", kind_name(&e.kind), e.errno.0, if e.detail.is_empty() { "-" } else { &e.detail }).unwrap(),
+                    }
+                }
+                "C" => client = None,
+                "N" => match client.as_mut() {
+                    None => writeln!(out, "NOCTX").unwrap(),
+                    Some(c) => {
+                        clock::fixed::set((num(1), num(2)), (num(3), num(4)));
+                        match c.now() {
+                            Ok(r) => writeln!(out, "OK {} {} {} {} {}", r.earliest.tv_sec(), r.earliest.tv_nsec(), r.latest.tv_sec(), r.latest.tv_nsec(), status_num(r.clock_status)).unwrap(),
+                            Err(e) => writeln!(out, "ERR {} {} {}", kind_name(&e.kind), e.errno.0, if e.detail.is_empty() { "-" } else { &e.detail }).unwrap(),
+                        }
+                    }
+                },
+                _ => {}
+            }
+        }
+        return;
+    }
+
     if mode == "openstress" {
         // Failed opens must not consume anything: with a small descriptor limit, open every file of
         // the list many more times than the limit allows, then a valid segment must still open.
